@@ -94,12 +94,6 @@ def showRes : Outcome String → String
   | .err _ => "err"
   | .panic _ => "panic"
 
-def liftO {α} (o : Outcome α) : M α := fun s =>
-  match o with
-  | .ok a => (.ok a, s)
-  | .err e => (.err e, s)
-  | .panic p => (.panic p, s)
-
 /-- one item on a bit string -/
 def runItem : Item → M String
   | .op o => do let r ← o.run; pure (showOut r)
